@@ -482,3 +482,55 @@ func VP_C12_withdata_huge() {
 	}
 	vp.Cover("end")
 }
+
+// a ReadFrom that failed half-way leaves a container that still accepts the
+// next section: truncated wire form (at every offset) into a used container,
+// then a complete section - every position equals the second section's.
+func VP_C12_reload_after_failure() {
+	const L = 64
+	mk := func(npal, base int) (*PaletteContainer[BlocksState], []BlocksState) {
+		c := NewStatesPaletteContainer(L, 0)
+		model := make([]BlocksState, L)
+		for i := 0; i < L; i++ {
+			v := BlocksState(base + 2*(i%npal))
+			c.Set(i, v)
+			model[i] = v
+		}
+		return c, model
+	}
+	nA := []int{3, 17}[vp.Choice(2)]
+	nB := []int{1, 17, 40}[vp.Choice(3)]
+	srcA, _ := mk(nA, 100)
+	baseB := vp.Int() // the second section's ids are arbitrary (an arithmetic progression from an arbitrary base)
+	vp.Assume(baseB >= 2000 && baseB < 6000)
+	srcB, modelB := mk(nB, baseB)
+	var wa, wb bytes.Buffer
+	_, _ = srcA.WriteTo(&wa)
+	_, _ = srcB.WriteTo(&wb)
+	dst, _ := mk([]int{1, 17}[vp.Choice(2)], 900)
+	cut := []int{0, 1, 2, wa.Len() / 2, wa.Len() - 1}[vp.Choice(5)]
+	if cut < 0 {
+		cut = 0
+	}
+	vp.SizeBound(8*L + 64)
+	_, err := dst.ReadFrom(bytes.NewReader(wa.Bytes()[:cut]))
+	vp.Assert(err != nil, "a truncated section is an error")
+	r := bytes.NewReader(append(append([]byte{}, wb.Bytes()...), 0x5a))
+	n, err := dst.ReadFrom(r)
+	vp.Assert(err == nil && n == int64(wb.Len()) && r.Len() == 1, "ReadFrom consumes exactly the bytes written")
+	for i := 0; i < L; i++ {
+		vp.Assert(dst.Get(i) == modelB[i], "every position preserved over the wire (after a failed read)")
+	}
+	nv := vpStateID() // a value the second section does not hold
+	vp.Assume(nv < 1000 || nv > 7000)
+	at := []int{0, 31, 63}[vp.Choice(3)]
+	dst.Set(at, nv)
+	for i := 0; i < L; i++ {
+		if i == at {
+			vp.Assert(dst.Get(i) == nv, "Set after reload stores the value")
+		} else {
+			vp.Assert(dst.Get(i) == modelB[i], "Set after reload leaves other positions alone")
+		}
+	}
+	vp.Cover("end")
+}
